@@ -3,7 +3,9 @@ from vlib.mo import *
 from vlib.runner import KH, run_kani_group, run_mir_obligations
 
 LEVEL = "other"
-EXPLANATION = "Kani/CBMC: pure 64-bit bit-vector queries over the real TenantIdMapper functions compiled inside the server binary (all tenant/local id pairs)."
+EXPLANATION = ("Kani/CBMC: pure 64-bit bit-vector queries over the real TenantIdMapper functions compiled inside the server binary (all tenant/local id pairs).  mirflow/z3 over the server binary's MIR "
+               "(async RPC bodies rebuilt from their coroutine state machines): every data RPC resolves the tenant, enforces the rate limit and maps ids through the range-checked map_doc_id before any engine call; "
+               "reserved keys are removed before the server-owned values are written; ownership metadata is read before a document is served, deleted or updated.")
 TRUSTED_BASE = ["Kani 0.68 MIR->goto translation", "CBMC 6.11 + CaDiCaL", "stub: std::fmt::format (Status message text)"]
 NOT_COVERED = ["end-to-end RPC sequences", "that the ownership comparison itself is correct (string compare of the stored index; data level)", "cache reuse across tenants through the running server", "/usage endpoint", "query_cache_scope collision-freeness (64-bit hash)",
                "AuthManager::validate and sanitize_public_metadata (std HashMap iteration is beyond CBMC here: probe > 7 min)"]
